@@ -67,8 +67,8 @@ func repoTraceSummary(st *TraceStats, rs *run.RepoTraceStats) string {
 		sk = append(sk, fmt.Sprintf("%d: %s", v, k))
 	}
 	sort.Strings(sk)
-	return fmt.Sprintf("repository test-suite under trace hooks: %d events, %d containers, %d converted, left out {%s}\n%s",
-		rs.Events, rs.Containers, rs.Converted, strings.Join(sk, "; "), st.summary())
+	return fmt.Sprintf("repository test-suite under trace hooks: %d events, %d containers, %d converted, left out {%s}; %d of the %d values user functions received identified by pointer with the execution that produced them\n%s",
+		rs.Events, rs.Containers, rs.Converted, strings.Join(sk, "; "), rs.Identified, rs.ArgValues, st.summary())
 }
 
 // takeRepoTrace attributes the divergences of the repository-test-suite stage.
